@@ -89,6 +89,8 @@ func (p *prfStream) Read(b []byte) (int, error) {
 		}
 	case "one":
 		n = 1
+	case "half":
+		n = (n + 1) / 2
 	}
 	if int64(n) > p.total-p.pos {
 		n = int(p.total - p.pos)
